@@ -1,0 +1,74 @@
+//go:build verif
+
+package server
+
+import (
+	"encoding/json"
+	"os"
+	"strconv"
+	"strings"
+	"sync"
+	"time"
+)
+
+// VerifHook is installed by the conformance harness (build tag "verif") to
+// observe, record and gate the linearization points of the job protocol and of
+// the prove handler. It is nil unless a harness sets it, or unless the process
+// is started with VERIF_TRACE_FILE / VERIF_HOLD in its environment.
+var VerifHook func(ev string, args ...any)
+
+func vh(ev string, args ...any) {
+	if h := VerifHook; h != nil {
+		h(ev, args...)
+	}
+}
+
+func init() {
+	path := os.Getenv("VERIF_TRACE_FILE")
+	hold := os.Getenv("VERIF_HOLD")
+	if path == "" && hold == "" {
+		return
+	}
+	holds := map[string]time.Duration{}
+	for _, kv := range strings.Split(hold, ",") {
+		parts := strings.SplitN(kv, ":", 2)
+		if len(parts) == 2 {
+			if ms, err := strconv.Atoi(parts[1]); err == nil {
+				holds[parts[0]] = time.Duration(ms) * time.Millisecond
+			}
+		}
+	}
+	var mu sync.Mutex
+	var seq int
+	var f *os.File
+	if path != "" {
+		f, _ = os.OpenFile(path, os.O_CREATE|os.O_WRONLY|os.O_APPEND, 0o644)
+	}
+	VerifHook = func(ev string, args ...any) {
+		mu.Lock()
+		seq++
+		if f != nil {
+			strs := make([]string, 0, len(args))
+			for _, a := range args {
+				switch v := a.(type) {
+				case string:
+					strs = append(strs, v)
+				case int:
+					strs = append(strs, strconv.Itoa(v))
+				case error:
+					if v != nil {
+						strs = append(strs, v.Error())
+					} else {
+						strs = append(strs, "")
+					}
+				}
+			}
+			line, _ := json.Marshal(map[string]any{"seq": seq, "ev": ev, "args": strs})
+			f.Write(append(line, '\n'))
+		}
+		mu.Unlock()
+		if d, ok := holds[ev]; ok {
+			time.Sleep(d)
+		}
+	}
+}
